@@ -180,3 +180,25 @@ def resolvesB (env : PrintEnv) : Event → Bool
   | .warning _ => true
 
 def shapedB (env : PrintEnv) (evs : List Event) : Bool := evs.all (resolvesB env) && kidsOk evs
+
+/-- the first marshal event after a list parent that is not one of its children: the event that ends the list's run -/
+def firstNonChild (parent : Path) : List Event → Option MEvent
+  | [] => none
+  | .warning _ :: rest => firstNonChild parent rest
+  | .marshal c :: rest => if isChild parent c.path then firstNonChild parent rest else some c
+
+/-- a byte-buffer parent: `list[BYTE]` without a value -/
+def isBufParent (m : MEvent) : Bool := isListParent m && decide (m.ty = .listOf "BYTE")
+
+/-- no list's run is ended by a byte-buffer parent (the printer shows the event that ends a run as a plain row without examining
+it: a buffer there would be shown byte by byte; another list there - the session area after a response's last buffer - only gets
+its own row shown as well) -/
+def endsOk : List Event → Bool
+  | [] => true
+  | .warning _ :: rest => endsOk rest
+  | .marshal p :: rest =>
+    (if isListParent p then (match firstNonChild p.path rest with | some c => !isBufParent c | none => true) else true) && endsOk rest
+
+/-- what the driver reports per stream (`K` line): the hypothesis of the totality theorem and of `c14_lists_are_blocks` -/
+def shownB (env : PrintEnv) (evs : List Event) : Bool := shapedB env evs && endsOk evs
+
